@@ -22,6 +22,46 @@ fn sc<T: SchemaStatementBuilder>(b: B, s: &T) -> String {
     }
 }
 
+// Derived identifiers whose (renamed) names contain quote characters: every statement position must
+// quote them exactly like an Alias of the same name (the derive may generate its own prepare()).
+#[derive(Iden)]
+#[iden = "odd\"name` x"]
+pub enum OddTable {
+    Table,
+    Id,
+}
+#[derive(Iden)]
+pub enum OddCols {
+    Table,
+    #[iden = "we\"ird`col"]
+    Weird,
+    Plain,
+}
+#[derive(Iden)]
+#[iden = "q\"s"]
+pub struct OddUnit;
+
+/// idenderived <backend> <k>: `<statement with the derived iden> <statement with Alias of the same name>`
+pub fn run_derived(t: &[&str]) -> String {
+    let b = backend(t[1]);
+    let pair = |d: DynIden| -> String {
+        let name = d.to_string();
+        let with_derived = q(b, Query::select().column(d.clone()).from(d.clone()).and_where(Expr::col((d.clone(), d)).is_null()));
+        let al = Alias::new(name);
+        let with_alias = q(b, Query::select().column(al.clone()).from(al.clone()).and_where(Expr::col((al.clone(), al)).is_null()));
+        format!("{} {}", hexs(&with_derived), hexs(&with_alias))
+    };
+    match t[2] {
+        "0" => pair(OddTable::Table.into_iden()),
+        "1" => pair(OddTable::Id.into_iden()),
+        "2" => pair(OddCols::Table.into_iden()),
+        "3" => pair(OddCols::Weird.into_iden()),
+        "4" => pair(OddCols::Plain.into_iden()),
+        "5" => pair(OddUnit.into_iden()),
+        _ => panic!("derived k"),
+    }
+}
+
 pub const POSITIONS: &[&str] = &[
     "tbl", "schtbl1", "schtbl2", "dbschtbl", "tblalias", "col", "tblcol1", "tblcol2", "schtblcol",
     "expralias", "subqalias", "joinalias", "jointbl", "ctename", "ctecol", "window", "windowref",
